@@ -60,7 +60,11 @@ where
                               // we loop here again
                         }
                         _ => {
-                            break;
+                            if self.detected_storage_header {
+                                break;
+                            }
+                            // not enough data for a msg with storage header but a (shorter) msg with
+                            // serial header might still fit, so we try serial below
                         }
                     },
                 }
